@@ -63,6 +63,7 @@ type Exec struct {
 	typeParamObjs     map[string]*types.TypeParam
 	mapSorts          map[string]string
 	curProp           string
+	usedPC            map[*ProcContract]bool // contracts relied on at call sites (dependency closure)
 	inGoroutine       bool
 	curFrame          *Frame
 	lastTypeArgs      map[string]types.Type
